@@ -7,8 +7,9 @@ import time
 
 from . import engine
 
-EVID = os.path.join(engine.VERIF, 'evidence')
-REPLAYS = os.path.join(engine.VERIF, 'replays')
+_OUT = os.environ.get('VERIF_OUT_DIR') or engine.VERIF      # mutant evaluation writes elsewhere
+EVID = os.path.join(_OUT, 'evidence')
+REPLAYS = os.path.join(_OUT, 'replays')
 FINDINGS = os.path.join(engine.VERIF, 'known_findings.json')
 
 
